@@ -162,9 +162,13 @@ def k_order(params):
     if m == 0:
         raise RuntimeError("uninformative symplectic ladder %s" % errs)
     slope = math.log2(errs[0] / errs[m]) / m
+    # the key carries the *asymptotic* exponent (median of the last <= 3 pairwise ratios): at large omega the first rung is
+    # pre-asymptotic and inflates the overall slope, which would give the same defect a different name
+    pair = sorted(math.log2(errs[i] / errs[i + 1]) for i in range(max(0, m - 3), m))
+    tail = pair[len(pair) // 2]
     if slope < order - 0.75:
-        viol.append(violation("order/order%d/slope%d" % (order, int(round(slope))), "symplectic order %d with omega=%g on %s: error ladder %s converges with exponent %.2f" % (
-            order, omega, name, ["%.2e" % e for e in errs], slope), errs, order))
+        viol.append(violation("order/order%d/slope%d" % (order, int(round(tail))), "symplectic order %d with omega=%g on %s: error ladder %s converges with exponent %.2f (asymptotically %.2f)" % (
+            order, omega, name, ["%.2e" % e for e in errs], slope, tail), errs, order))
     return res(evals=len(errs), nontrivial=m, viol=viol, stats={"ladder_halvings_above_floor": m},
                sample={"ham": name, "order": order, "omega": omega, "error_ladder": errs, "slope": slope})
 
